@@ -581,6 +581,17 @@ func (c *Chain) updateState(ctx context.Context,
 	}
 
 	for _, signedTransfer := range sctx.GetSignedTransfers() {
+		// sctx.Validate() ran before the smart contract was executed, when no
+		// signed transfer existed yet: verify the ones the contract added
+		if err := signedTransfer.VerifySignature(true); err != nil {
+			logging.Logger.Error("Invalid signature on signed transfer",
+				zap.String("signedTransfer_ClientID", signedTransfer.ClientID),
+				zap.Error(err))
+			return nil, err
+		}
+		if signedTransfer.Amount <= 0 {
+			return nil, state.ErrInvalidTransfer
+		}
 		tEvents, err := c.transferAmountWithAssert(sctx, signedTransfer.ClientID,
 			signedTransfer.ToClientID, signedTransfer.Amount)
 		if err != nil {
